@@ -164,6 +164,7 @@ func ruleMetaMerge(c *Ctx) {
 	p := c.P
 	fn := p.Fn("(*codec.Meta).Merge")
 	fStatus := p.Field("codec.Meta.Status")
+	fHeader := p.Field("codec.Meta.Header")
 	if fn == nil || fStatus == nil || len(fn.Params) < 2 {
 		c.undecided("(*codec.Meta).Merge", "anchor", "-", "not found")
 		return
@@ -172,6 +173,16 @@ func ruleMetaMerge(c *Ctx) {
 	m, o := fn.Params[0], fn.Params[1]
 	sp := &Spec{InlineHelpers: true}
 	sp.Classify = func(t *Tracer, fr *Frame, in ssa.Instruction) []Ev {
+		if fHeader != nil {
+			if _, ok := isStoreToT(t, fr, in, fHeader); ok {
+				return []Ev{{Kind: "hdr"}}
+			}
+			if call, ok := in.(ssa.CallInstruction); ok {
+				if m2 := calleeFunc(call.Common()); m2 != nil && m2.Name() == "MergeHeader" {
+					return []Ev{{Kind: "hdr", Stop: true}}
+				}
+			}
+		}
 		if st, ok := isStoreToT(t, fr, in, fStatus); ok {
 			if f, base := fieldLoad(t.Resolve(fr, st.Val).V); f == fStatus && base != nil && t.Resolve(fr, base).V == ssa.Value(o) {
 				return []Ev{{Kind: "status=o"}}
@@ -225,6 +236,8 @@ func ruleMetaMerge(c *Ctx) {
 		switch {
 		case hasKind(path, "o.status!=nil") && !hasKind(path, "status=o"):
 			bad = "the later meta has a status and the merged meta does not take it: " + tr.FmtPath(path)
+		case fHeader != nil && !hasKind(path, "hdr"):
+			bad = "a path merges two metas and leaves the later one's headers out (neither taken over nor merged): Set-Cookie and the other headers of the later answer never reach the response: " + tr.FmtPath(path)
 		case !hasKind(path, "o.status!=nil") && !hasKind(path, "o.status=nil") && !hasKind(path, "status=o"):
 			bad = "a path merges two metas without looking at the later one's status: a later 300–599 status is dropped and the request goes on (or answers with the wrong code): " + tr.FmtPath(path)
 		}
